@@ -7,7 +7,7 @@ from implbase import main, guarded, jv, arg
 def handler(payload):
     from spsdk.utils import misc
     from spsdk.utils.misc import Endianness, BinaryPattern
-    from spsdk.sbfile.misc import BcdVersion3
+    from spsdk.sbfile.misc import BcdVersion3, SecBootBlckSize
 
     def pat(tag, v):
         return [BinaryPattern("zeros"), BinaryPattern("ones"), BinaryPattern("inc"), None][tag] if tag < 3 else v
@@ -34,6 +34,10 @@ def handler(payload):
         16: lambda sz, ptag, pv: (pat(ptag, None) if ptag < 3 else BinaryPattern(str(pv))).get_block(sz),
         17: lambda x, y, z: str(BcdVersion3(x, y, z)),
         18: lambda s: str(BcdVersion3.to_version(s)),
+        19: lambda s: int(SecBootBlckSize.is_aligned(s)),
+        20: lambda s: SecBootBlckSize.align(s),
+        21: lambda s: SecBootBlckSize.to_num_blocks(s),
+        22: lambda d: SecBootBlckSize.align_block_fill_zeros(d),
     }
     out = []
     for case in payload["cases"]:
